@@ -191,7 +191,7 @@ package mpb
 //@   ensures  counted: called("(*Bar).IncrInt64") == old(called("(*Bar).IncrInt64")) + 1 && calledWith("(*Bar).IncrInt64", 0) == x.bar && calledWith("(*Bar).IncrInt64", 1) == result0
 
 //@ func (ewmaProxyReader).Read
-//@   props    C19
+//@   props    C19 C20
 //@   ensures  once: called("io.ReadCloser.Read") == old(called("io.ReadCloser.Read")) + 1 && calledWith("io.ReadCloser.Read", 1) == p
 //@   ensures  same: result0 == returned("io.ReadCloser.Read", 0) && result1 == returned("io.ReadCloser.Read", 1)
 //@   ensures  counted: called("(*Bar).EwmaIncrBy") == old(called("(*Bar).EwmaIncrBy")) + 1 && calledWith("(*Bar).EwmaIncrBy", 0) == x.bar && calledWith("(*Bar).EwmaIncrBy", 1) == result0
@@ -199,7 +199,7 @@ package mpb
 //@            && called("time.Now") == old(called("time.Now")) + 1 && called("time.Since") == old(called("time.Since")) + 1
 
 //@ func (ewmaProxyWriterTo).WriteTo
-//@   props    C19 C02
+//@   props    C19 C02 C20
 //@   ensures  once: called("io.WriterTo.WriteTo") == old(called("io.WriterTo.WriteTo")) + 1 && calledWith("io.WriterTo.WriteTo", 0) == x.ReadCloser && calledWith("io.WriterTo.WriteTo", 1) == w
 //@   ensures  same: result0 == returned("io.WriterTo.WriteTo", 0) && result1 == returned("io.WriterTo.WriteTo", 1)
 //@   ensures  counted: called("(*Bar).EwmaIncrInt64") == old(called("(*Bar).EwmaIncrInt64")) + 1 && calledWith("(*Bar).EwmaIncrInt64", 0) == x.bar && calledWith("(*Bar).EwmaIncrInt64", 1) == result0
@@ -218,14 +218,14 @@ package mpb
 //@   ensures  counted: called("(*Bar).IncrInt64") == old(called("(*Bar).IncrInt64")) + 1 && calledWith("(*Bar).IncrInt64", 0) == x.bar && calledWith("(*Bar).IncrInt64", 1) == result0
 
 //@ func (ewmaProxyWriter).Write
-//@   props    C19
+//@   props    C19 C20
 //@   ensures  once: called("io.WriteCloser.Write") == old(called("io.WriteCloser.Write")) + 1 && calledWith("io.WriteCloser.Write", 1) == p
 //@   ensures  same: result0 == returned("io.WriteCloser.Write", 0) && result1 == returned("io.WriteCloser.Write", 1)
 //@   ensures  counted: called("(*Bar).EwmaIncrBy") == old(called("(*Bar).EwmaIncrBy")) + 1 && calledWith("(*Bar).EwmaIncrBy", 0) == x.bar && calledWith("(*Bar).EwmaIncrBy", 1) == result0
 //@   ensures  timed: calledWith("(*Bar).EwmaIncrBy", 2) == returned("time.Since", 0) && calledWith("time.Since", 0) == returned("time.Now", 0)
 
 //@ func (ewmaProxyReaderFrom).ReadFrom
-//@   props    C19 C02
+//@   props    C19 C02 C20
 //@   ensures  once: called("io.ReaderFrom.ReadFrom") == old(called("io.ReaderFrom.ReadFrom")) + 1 && calledWith("io.ReaderFrom.ReadFrom", 0) == x.WriteCloser && calledWith("io.ReaderFrom.ReadFrom", 1) == r
 //@   ensures  same: result0 == returned("io.ReaderFrom.ReadFrom", 0) && result1 == returned("io.ReaderFrom.ReadFrom", 1)
 //@   ensures  counted: called("(*Bar).EwmaIncrInt64") == old(called("(*Bar).EwmaIncrInt64")) + 1 && calledWith("(*Bar).EwmaIncrInt64", 0) == x.bar && calledWith("(*Bar).EwmaIncrInt64", 1) == result0
